@@ -392,6 +392,157 @@ def _copy(tree):
               "  copyByTables copyFresh copyAttrBranch copyDataBranch copyConnBranch s i attrs\n")
 
 
+def _from_arrays(tree):
+    """mesh.py::from_arrays, statement by statement: accumulator `m = RawMeshData()`, the column guard / padding of V, the copying vertex
+    extension, the guarded element blocks (index range check, shape check, extension), both returns.  `raise` = `none`."""
+    fn = T.find_def(tree, "from_arrays")
+    args = [a.arg for a in fn.args.args]
+    if len(args) != 5: raise TranslateError(f"from_arrays: {len(args)} parameters, expected 5")
+    pV, pE, pF, pC, pRaw = args
+    env = {pV: "a0", pE: "a1", pF: "a2", pC: "a3"}
+    kindvar = {pE: "edges", pF: "faces", pC: "cells"}
+    b = _body(fn)
+    if not (b and isinstance(b[0], ast.Assign) and isinstance(b[0].targets[0], ast.Name) and ast.unparse(b[0].value) == "RawMeshData()"):
+        raise TranslateError("from_arrays: accumulator `m = RawMeshData()` not found")
+    acc = b[0].targets[0].id
+    state = {"V": "a0", "nloc": 0, "n": None}
+
+    def u(x): return ast.unparse(x).replace(" ", "").replace('"', "'")
+
+    def cond(t, arr_name):
+        """comparisons on <arr>.shape[1] and np.any(np.asarray(<arr>) >= n)"""
+        if isinstance(t, ast.Compare) and len(t.ops) == 1:
+            l, r, op = t.left, t.comparators[0], t.ops[0]
+            if isinstance(op, (ast.Gt, ast.GtE)):           # a > b  =  b < a
+                l, r = r, l; op = ast.Lt() if isinstance(op, ast.Gt) else ast.LtE()
+
+            def atom(x):
+                if isinstance(x, ast.Constant) and isinstance(x.value, int): return str(x.value)
+                if u(x).endswith(".shape[1]") and u(x)[:-9] in env:
+                    nm = u(x)[:-9]
+                    return (state["V"] if nm == pV else env[nm] + "v") + ".cols"
+                raise TranslateError(f"from_arrays: operand not understood: {u(x)[:60]}")
+            sym = {ast.Lt: "<", ast.LtE: "≤", ast.Eq: "=", ast.NotEq: "≠"}.get(type(op))
+            if sym is None: raise TranslateError("from_arrays: comparison")
+            return f"decide ({atom(l)} {sym} {atom(r)})"
+        if isinstance(t, ast.Call) and u(t.func) == "np.any" and len(t.args) == 1:
+            c = t.args[0]
+            if isinstance(c, ast.Compare) and len(c.ops) == 1 and isinstance(c.ops[0], ast.GtE) and u(c.comparators[0]) == state["n"][0]:
+                inner = u(c.left)
+                for nm in kindvar:
+                    if inner in (f"np.asarray({nm})", nm): return f"({env[nm]}v.anyGe {state['n'][1]})"
+        raise TranslateError(f"from_arrays: condition not understood: {u(t)[:80]}")
+
+    def S(stmts):
+        if not stmts: raise TranslateError("from_arrays: falls off the end")
+        st, rest = stmts[0], stmts[1:]
+        if isinstance(st, ast.Return):
+            if u(st.value) in (acc, f"_instanciate_raw_mesh_data({acc})"): return "some (instanciate s m)"
+            raise TranslateError(f"from_arrays: return value not understood: {u(st.value)[:60]}")
+        if isinstance(st, ast.Raise): return "none"
+        if isinstance(st, ast.If):
+            t = st.test
+            # `if X is not None:` element block
+            if isinstance(t, ast.Compare) and isinstance(t.ops[0], (ast.IsNot,)) and isinstance(t.left, ast.Name) and t.left.id in kindvar \
+                    and isinstance(t.comparators[0], ast.Constant) and t.comparators[0].value is None and not st.orelse:
+                v = env[t.left.id]
+                inner = S(st.body + rest)
+                return f"match {v} with\n| none =>\n{ind(S(rest))}\n| some {v}v =>\n{ind(inner)}"
+            if isinstance(t, ast.Name) and t.id == pRaw:
+                return f"if raw then\n{ind(S(st.body + rest))}\nelse\n{ind(S(st.orelse + rest))}"
+            c = cond(t, None)
+            return f"if {c} then\n{ind(S(st.body + rest))}\nelse\n{ind(S(st.orelse + rest))}"
+        if isinstance(st, ast.Assign) and len(st.targets) == 1 and isinstance(st.targets[0], ast.Name):
+            tg, val = st.targets[0].id, st.value
+            if tg == pV and u(val) in (f"np.pad({pV},((0,0),(0,3-{pV}.shape[1])))",):
+                state["nloc"] += 1
+                old = state["V"]; state["V"] = f"v{state['nloc']}"
+                out = f"let {state['V']} := {old}.padRight (3 - {old}.cols)\n" + S(rest)
+                state["V"] = old
+                return out
+            if u(val) == f"{pV}.shape[0]":
+                state["nloc"] += 1
+                oldn = state["n"]; state["n"] = (tg, f"v{state['nloc']}")
+                out = f"let v{state['nloc']} := {state['V']}.rows.length\n" + S(rest)
+                state["n"] = oldn
+                return out
+        if isinstance(st, ast.AugAssign) and isinstance(st.op, ast.Add) and u(st.target).startswith(acc + "."):
+            fld = u(st.target)[len(acc) + 1:]
+            val = u(st.value)
+            if fld == "vertices":
+                if val not in (f"list(np.array({pV}))", f"list({pV}.copy())", f"list(np.copy({pV}))"):
+                    raise TranslateError(f"from_arrays: the vertex rows are not stored through a COPY of the caller's array: {val[:60]}")
+                return f"let m := {{ m with verts := m.verts ++ {state['V']}.toV3 }}\n" + S(rest)
+            for nm, kind in kindvar.items():
+                if fld == kind and val in (f"list({nm})", f"list(np.array({nm}))"):
+                    return f"let m := {{ m with {kind} := m.{kind} ++ {env[nm]}v.rows }}\n" + S(rest)
+            raise TranslateError(f"from_arrays: extension not understood: {u(st)[:80]}")
+        raise TranslateError(f"from_arrays: statement not understood: {ast.unparse(st)[:80]}")
+    txt = "let m : RawAcc := {}\n" + S(b[1:])
+    return ("/-- `from_arrays` (`none` = an exception) -/\n"
+            "def fromArrays (a0 : ArrV) (a1 a2 a3 : Option ArrI) (raw : Bool) (s : State) : Option State :=\n" + ind(txt) + "\n")
+
+
+def _reorder(tree):
+    """mesh.py::reorder_vertices: `ind = np.argsort(new_indices)`, the vertex loop APPENDS THE STORED VECTOR OBJECTS of the input mesh in
+    the new order (no copy), the element loops relabel through `ind`."""
+    fn = T.find_def(tree, "reorder_vertices")
+    args = [a.arg for a in fn.args.args]
+    if len(args) != 2: raise TranslateError("reorder_vertices: parameters")
+    m, p = args
+    b = _body(fn)
+
+    def u(x): return ast.unparse(x).replace(" ", "")
+    if len(b) != 8: raise TranslateError(f"reorder_vertices: {len(b)} statements, expected 8")
+    if not (isinstance(b[0], ast.Assert) and u(b[0].test) in (f"len({p})==len({m}.vertices)", f"len({m}.vertices)==len({p})")):
+        raise TranslateError("reorder_vertices: length assertion")
+    if not (isinstance(b[1], ast.Assign) and u(b[1].value) == f"np.argsort({p})"): raise TranslateError("reorder_vertices: argsort")
+    inv = b[1].targets[0].id
+    if not (isinstance(b[2], ast.Assign) and u(b[2].value) == "RawMeshData()"): raise TranslateError("reorder_vertices: accumulator")
+    acc = b[2].targets[0].id
+    lp = b[3]
+    if not (isinstance(lp, ast.For) and isinstance(lp.target, ast.Name) and u(lp.iter) == f"{m}.id_vertices" and len(lp.body) == 1):
+        raise TranslateError("reorder_vertices: vertex loop")
+    v = lp.target.id
+    got = u(lp.body[0])
+    if got == f"{acc}.vertices.append({m}.vertices[{p}[{v}]])": share = True
+    elif got in (f"{acc}.vertices.append(np.array({m}.vertices[{p}[{v}]]))", f"{acc}.vertices.append(Vec(np.array({m}.vertices[{p}[{v}]])))"):
+        share = False
+    else: raise TranslateError(f"reorder_vertices: vertex statement not understood: {got[:80]}")
+    import re
+    kinds = []
+    for st, kind in zip(b[4:7], ("edges", "faces", "cells")):
+        if not (isinstance(st, ast.If) and u(st.test).replace('"', "'") == f"hasattr({m},'{kind}')" and len(st.body) == 1
+                and isinstance(st.body[0], ast.For) and u(st.body[0].iter) == f"{m}.{kind}" and len(st.body[0].body) == 1):
+            raise TranslateError(f"reorder_vertices: block for {kind}")
+        f = st.body[0]
+        got = u(f.body[0])
+        if isinstance(f.target, ast.Tuple) and len(f.target.elts) == 2:
+            x, y = (e.id for e in f.target.elts)
+            ok = got == f"{acc}.{kind}.append(({inv}[{x}],{inv}[{y}]))"
+        else:
+            x = f.target.id
+            ok = re.fullmatch(rf"{acc}\.{kind}\.append\(\[{inv}\[(\w+)\]for\1in{x}\]\)", got) is not None
+        if not ok: raise TranslateError(f"reorder_vertices: element statement for {kind} not understood: {got[:80]}")
+        kinds.append(kind)
+    if u(b[7]) != f"return_instanciate_raw_mesh_data({acc})": raise TranslateError("reorder_vertices: return")
+    vert = ("verts := (idVertices s mi).map (fun v => m.verts.getD (a1.getD v 0) 0)" if share else None)
+    if share:
+        body = ("  match s.meshes[mi]? with\n  | none => s\n  | some m =>\n"
+                "    let ind := argsortPerm a1\n"
+                "    -- `raw.vertices.append(mesh.vertices[new_indices[v]])`: the stored vector OBJECTS, in the new order (shared with the input)\n"
+                "    let verts := (idVertices s mi).map (fun v => m.verts.getD (a1.getD v 0) 0)\n"
+                "    let rel := fun (l : List (List Nat)) => l.map (fun e => e.map (fun u => ind.getD u 0))\n"
+                "    { s with meshes := s.meshes ++ [{ verts := verts, edges := rel m.edges, faces := rel m.faces, cells := rel m.cells }] }\n")
+    else:
+        body = ("  match s.meshes[mi]? with\n  | none => s\n  | some m =>\n"
+                "    let ind := argsortPerm a1\n"
+                "    let rel := fun (l : List (List Nat)) => l.map (fun e => e.map (fun u => ind.getD u 0))\n"
+                "    newMesh s ((idVertices s mi).map (fun v => deref s.heap (m.verts.getD (a1.getD v 0) 0))) (rel m.edges) (rel m.faces) (rel m.cells)\n")
+    return ("/-- `reorder_vertices` (the length assertion is a precondition) -/\n"
+            "def reorderVertices (mi : Nat) (a1 : List Nat) (s : State) : State :=\n" + body)
+
+
 def translate_sites():
     sites, chunks, status = [], [], {}
     try:
@@ -422,6 +573,16 @@ def translate_sites():
         chunks.append(_copy(mtree)); return "fresh mesh; attribute / data branches; connectivity through deepcopy with memo"
     rec = T.site("mesh.py:copy (body)", cp)
     sites.append(rec); status["copy"] = rec["ok"]
+
+    def fa():
+        chunks.append(_from_arrays(mtree)); return "accumulator, column guard / padding, copying vertex extension, guarded element blocks"
+    rec = T.site("mesh.py:from_arrays (body)", fa)
+    sites.append(rec); status["from_arrays"] = rec["ok"]
+
+    def ro():
+        chunks.append(_reorder(mtree)); return "argsort, vertex loop (stored objects appended), relabelled elements"
+    rec = T.site("mesh.py:reorder_vertices (body)", ro)
+    sites.append(rec); status["reorder_vertices"] = rec["ok"]
     if all(r["ok"] for r in sites):
         body = ("import Mouette.Model.MeshSource\nnamespace Mouette.Generated.C06Src\nopen Mouette.MeshHeap Mouette.MeshSrc\n"
                 "set_option linter.unusedVariables false\n\n" + "\n".join(chunks) + "\nend Mouette.Generated.C06Src\n")
